@@ -61,6 +61,7 @@ type Result struct {
 	Evals        int64            `json:"evals,omitempty"` // evaluations inside this case (default 1)
 	Sample       any              `json:"sample,omitempty"`
 	Extra        json.RawMessage  `json:"extra,omitempty"` // data for the parent-side Post step
+	WallMs       int64            `json:"wall_ms,omitempty"`
 }
 
 func (r *Result) Count(name string, n int64) {
